@@ -19,7 +19,7 @@ Specification: `direct` evaluates the same tree with the mathematical forward-mo
 mathematical operand order (`directBin`: closed formulas per row, e.g. quotient rule).
 
 Numbers are rationals.  An AdArray is a list of rows `Dual = (value, gradient over the global dofs)`.
-Powers are modelled for integer exponents only (everything else is `unsupported`, as are the
+Powers are modelled for integer exponents of magnitude ≤ 64 only (everything else is `unsupported`, as are the
 combinations whose numpy/scipy meaning is not elementwise arithmetic); numpy's inf/nan results of
 divisions by zero are `div0`.
 -/
@@ -83,7 +83,8 @@ def vals (a : Ad) : Vec := a.map (·.v)
 /-- integer power, total: negative exponents through the inverse (`0⁻¹ = 0`, guarded by the callers) -/
 def ipow (x : Rat) (n : Int) : Rat := if 0 ≤ n then x ^ n.toNat else (x⁻¹) ^ (-n).toNat
 
-def isInt (c : Rat) : Bool := c.den == 1
+/-- integer exponent of moderate size (larger ones overflow binary64 anyway) -/
+def isInt (c : Rat) : Bool := c.den == 1 && c.num.natAbs ≤ 64
 
 def hasZero (v : Vec) : Bool := v.any (· == 0)
 
